@@ -184,6 +184,35 @@ func strictRead(src string) ([]*lisp.LVal, error) {
 	return parser.NewReader().Read("test.lisp", strings.NewReader(src))
 }
 
+// genValQ: gen.GenVal plus quote marks on ATOMS other than symbols (an int,
+// float or string under one to four quotes, at the top and inside lists): the
+// printer writes the quotes of those through a different path than the quotes
+// of symbols and lists.
+func genValQ() *rapid.Generator[gen.Val] {
+	return rapid.Custom(func(t *rapid.T) gen.Val {
+		v := gen.GenVal(6).Draw(t, "v")
+		quoteAtoms(t, &v)
+		return v
+	})
+}
+
+func quoteAtoms(t *rapid.T, v *gen.Val) {
+	switch v.K {
+	case "int", "float", "str":
+		if rapid.IntRange(0, 4).Draw(t, "aq") == 0 {
+			// two to four: ONE quote on a self-evaluating atom is a flag the
+			// printer does not write ('1 prints 1 and evaluates to 1), so its
+			// depth is not a property of the printed text; from the second
+			// quote on the marks are nodes of their own
+			v.Q = rapid.IntRange(2, 4).Draw(t, "aqd")
+		}
+	case "list":
+		for i := range v.L {
+			quoteAtoms(t, &v.L[i])
+		}
+	}
+}
+
 func checkRoundTrip(m gen.Val, c *vcommon.Ctx) *vcommon.Failure {
 	v := m.ToLVal()
 	text := v.String()
@@ -937,7 +966,7 @@ func checkDeepNest(d DeepNest, c *vcommon.Ctx) *vcommon.Failure {
 
 func TestCheck(t *testing.T) {
 	vcommon.Main(t, "C12",
-		vcommon.S("roundtrip", 160000, 4000000, gen.GenVal(6), checkRoundTrip),
+		vcommon.S("roundtrip", 160000, 4000000, genValQ(), checkRoundTrip),
 		vcommon.S("modes", 80000, 2000000, genSource(), checkModes),
 		vcommon.S("layout", 40000, 1000000, genLayout(), checkLayout),
 		vcommon.S("large", 640, 16000, genLarge(), checkLarge),
